@@ -17,9 +17,12 @@ def load(root):
     return jsonschema, cli, validators
 
 
-SCHEMAS = {"valid": {"type": "object", "properties": {"a": {"type": "integer"}, "b": {"type": "string"}}, "required": ["a"]},
+SCHEMAS = {"valid": {"type": "object", "properties": {"a": {"type": "integer"}, "b": {"type": "string"}}, "required": ["a"],
+                     "patternProperties": {"^x": {"type": "integer"}}},
            "invalid": {"type": 12}, "missing": None, "notjson": "{nope"}
-INSTANCES = {"valid": {"a": 1, "b": "x"}, "invalid1": {"a": "s"}, "invalid2": {"a": "s", "b": 5}, "invalid3": [1], "missing": None, "notjson": "[1,"}
+INSTANCES = {"valid": {"a": 1, "b": "x"}, "invalid1": {"a": "s"}, "invalid2": {"a": "s", "b": 5}, "invalid3": [1], "missing": None, "notjson": "[1,",
+             # two errors with the same message from the same subschema at different places of the instance
+             "invalid4": {"a": 1, "x1": "s", "x2": "s"}}
 
 
 def scenario(mods, schema_state, inst_states, output, error_format=None, explicit=None, stdin_state=None, base_uri=False):
@@ -115,7 +118,7 @@ def check(mods, schema_state, inst_states, output, stdin_state=None, error_forma
 def search(job):
     mods = load(job["root"])
     out, tried = [], 0
-    states = ["valid", "invalid1", "invalid2", "missing", "notjson"]
+    states = ["valid", "invalid1", "invalid2", "invalid4", "missing", "notjson"]
     maxn = job.get("maxn", 3)
     for schema_state in ("valid", "invalid", "missing", "notjson"):
         lists = [()] + [c for n in range(1, maxn + 1) for c in itertools.product(states, repeat=n)]
